@@ -870,7 +870,7 @@ func (e *Engine) evalCall(env *Env, c *ast.CallExpr) TV {
 		}()
 		rng := and(e.idxLe(lo, q), e.idxLt(q, hi))
 		if fname == "forall" {
-			return TV{V: &Sc{fmt.Sprintf("(forall ((%s %s)) %s)", q, srt, withPatterns(implies(rng, body), q))}, T: boolT}
+			return TV{V: &Sc{fmt.Sprintf("(forall ((%s %s)) %s)", q, srt, e.withPatterns(implies(rng, body), q))}, T: boolT}
 		}
 		ex := fmt.Sprintf("(exists ((%s %s)) %s)", q, srt, and(rng, body))
 		// candidate witnesses: each instance implies the existential, so proving
@@ -1310,8 +1310,13 @@ func (e *Engine) unfoldSpec(env *Env, call *ast.CallExpr) string {
 // read or stream/string access whose index mentions the bound variable is an
 // alternative pattern. Without them the solvers pick triggers through the
 // arithmetic of the index and instantiate erratically.
-func withPatterns(body, q string) string {
-	pats := findPatterns(body, q)
+func (e *Engine) withPatterns(body, q string) string {
+	var pats []string
+	for _, p := range findPatterns(body, q) {
+		if e.vc.patternSafe(p, 0) {
+			pats = append(pats, p)
+		}
+	}
 	if len(pats) == 0 {
 		return body
 	}
